@@ -191,10 +191,17 @@ func (w *wbuild) damageCache(m *Machine) string {
 	if len(files) == 0 {
 		return "nothing to damage"
 	}
-	f := files[c.Choose(len(files), "damage-file")]
 	w.fs.damaged = true
-	simrt.Fault("blob-missing")
-	os.Remove(f)
-	rel, _ := filepath.Rel(m.Root, f)
+	k := 1 + c.Choose(3, "damage-count")
+	rel := ""
+	for i := 0; i < k && len(files) > 0; i++ {
+		j := c.Choose(len(files), "damage-file")
+		f := files[j]
+		files = append(files[:j], files[j+1:]...)
+		simrt.Fault("blob-missing")
+		os.Remove(f)
+		r, _ := filepath.Rel(m.Root, f)
+		rel += r + " "
+	}
 	return "removed " + rel
 }
